@@ -96,30 +96,111 @@ type c20Space struct {
 	labels  []string
 	values  []string
 	nLeaves int
-	maxNot  int
+	maxNot  int // -1: signed leaves, plain inner nodes, 0..1 negation at the root (abe.AllSigned)
+}
+
+func (sp c20Space) formulas() []*abe.Node {
+	if sp.maxNot < 0 {
+		return abe.AllSigned(sp.nLeaves, sp.kinds)
+	}
+	return abe.All(sp.nLeaves, sp.kinds, sp.maxNot)
 }
 
 func c20PolicySpaces(thorough bool) []c20Space {
 	abc := []string{"a", "b", "c"}
 	ab := []string{"a", "b"}
 	lex := []string{"region", "Region", "_x9"}
+	v12 := []string{"1", "2"}
 	sp := []c20Space{
 		{"base", c20Kinds4, abc, c20Values, 1, 2},
 		{"base", c20Kinds4, abc, c20Values, 2, 2},
-		{"base", c20Kinds4, abc, c20Values, 3, 2},
 		{"lex", c20KindsLex, lex, c20ValsLex, 1, 2},
 		{"lex", c20KindsLex, lex, c20ValsLex, 2, 2},
 	}
 	if thorough {
-		sp = append(sp,
-			c20Space{"four", c20Kinds4, abc, c20Values, 4, 1},
-			c20Space{"deep", c20KindsABC, abc, c20Values, 5, 0})
-	} else {
-		sp = append(sp,
-			c20Space{"four", c20Kinds2, ab, c20Values, 4, 1},
-			c20Space{"deep", c20Kinds2, ab, c20Values, 5, 0})
+		return append(sp,
+			c20Space{"base", c20Kinds4, abc, c20Values, 3, 2},
+			c20Space{"deep", c20KindsABC, abc, c20Values, 5, 0},
+			c20Space{"four", c20Kinds4, abc, c20Values, 4, 1})
 	}
-	return sp
+	return append(sp,
+		c20Space{"three-ab-stacked", c20Kinds2, ab, c20Values, 3, 2},
+		c20Space{"three-a12b", c20Kinds3, ab, c20Values, 3, 1},
+		c20Space{"three-abc", c20KindsABC, abc, v12, 3, 1},
+		c20Space{"four-signed", c20Kinds2, ab, v12, 4, -1},
+		c20Space{"deep", c20Kinds2, ab, v12, 5, 0})
+}
+
+var (
+	c20SelfOnce sync.Once
+	c20SelfErr  string
+)
+
+// c20SelfCheck is run (once per process) by every unit before it may record anything: a wrong reference must
+// produce a broken run, never an alarm. The full version is the refcheck unit.
+func c20SelfCheck(t testing.TB) {
+	c20SelfOnce.Do(func() {
+		for _, h := range c20HandVectors {
+			f, err := abe.Parse(h.pol)
+			if err != nil || abe.Eval(f, h.attrs) != h.want {
+				c20SelfErr = fmt.Sprintf("reference evaluator wrong on hand vector %q %v (err %v)", h.pol, h.attrs, err)
+				return
+			}
+		}
+		for n := 1; n <= 3; n++ {
+			for i, f := range abe.All(n, c20Kinds3, 2) {
+				if n == 3 && i%5 != 0 {
+					continue
+				}
+				for st := 0; st < abe.NumStyles; st++ {
+					s := abe.Print(f, st)
+					if g, err := abe.Parse(s); err != nil || !abe.Same(f, g) {
+						c20SelfErr = fmt.Sprintf("Parse(Print(f,%s)) != f for %q: %v", abe.StyleNames[st], s, err)
+						return
+					}
+				}
+			}
+		}
+	})
+	if c20SelfErr != "" {
+		t.Fatalf("reference self-check failed (no verdict): %s", c20SelfErr)
+	}
+}
+
+type c20Hand struct {
+	pol   string
+	attrs map[string]string
+	want  bool
+}
+
+// c20HandVectors: the statement's semantics, written out by hand.
+var c20HandVectors = []c20Hand{
+	{"a:1", map[string]string{"a": "1"}, true},
+	{"a:1", map[string]string{"a": "2"}, false},
+	{"a:1", map[string]string{}, false},
+	{"a:1", map[string]string{"b": "1"}, false},
+	{"not a:1", map[string]string{"a": "2"}, true},
+	{"not a:1", map[string]string{"a": "1"}, false},
+	{"not a:1", map[string]string{}, false},        // label must be present for a negated leaf
+	{"not a:1", map[string]string{"b": "1"}, false}, // idem
+	{"not not a:1", map[string]string{"a": "1"}, true},
+	{"not not a:1", map[string]string{}, false},
+	{"not (a:1 and b:1)", map[string]string{"a": "1", "b": "2"}, true}, // = not a:1 or not b:1
+	{"not (a:1 and b:1)", map[string]string{"a": "1", "b": "1"}, false},
+	{"not (a:1 and b:1)", map[string]string{"a": "1"}, false}, // b missing: not b:1 fails, not a:1 fails
+	{"not (a:1 and b:1)", map[string]string{"a": "2"}, true},
+	{"not (a:1 or b:1)", map[string]string{"a": "2"}, false}, // = not a:1 and not b:1, b missing
+	{"not (a:1 or b:1)", map[string]string{"a": "2", "b": "2"}, true},
+	{"not (a:1 or not b:1)", map[string]string{"a": "2", "b": "1"}, true}, // = not a:1 and b:1
+	{"not (a:1 or not b:1)", map[string]string{"a": "2", "b": "2"}, false},
+	{"a:1 or b:1 and c:1", map[string]string{"a": "1"}, true}, // and binds tighter than or
+	{"(a:1 or b:1) and c:1", map[string]string{"a": "1"}, false},
+	{"not a:1 and b:1", map[string]string{"a": "1", "b": "1"}, false}, // not binds tightest
+	{"not a:1 and b:1", map[string]string{"a": "2", "b": "1"}, true},
+	{"a:1 and a:2", map[string]string{"a": "1"}, false},
+	{"a:1 or a:2", map[string]string{"a": "2"}, true},
+	{"not a:1 and not a:2", map[string]string{"a": "3"}, true},
+	{"(not (a:1))", map[string]string{"a": "3"}, true},
 }
 
 // c20CheckFormula runs every policy-level demand on one formula.
@@ -313,6 +394,7 @@ func c20CheckFormula(r *verifmc.Run, space string, f *abe.Node, asgs []c20Asg, s
 func TestVerifC20_policy(t *testing.T) {
 	r := verifmc.Start(t, "C20", "policy")
 	defer r.Finish()
+	c20SelfCheck(t)
 	r.Rule("every formula of e := leaf | not e | (e and e) | (e or e) with the stated number of leaves, every tree shape, every leaf kind, " +
 		"0..maxNot stacked negations at every node, x every assignment labels -> {absent} U values; each formula is parsed in 4 spellings, printed/reparsed and " +
 		"marshalled/unmarshalled; non-trivial = distinct (space, formula); (formula, assignment) pairs are counted exactly in counters")
@@ -323,7 +405,7 @@ func TestVerifC20_policy(t *testing.T) {
 			break
 		}
 		asgs := c20Assignments(sp.labels, sp.values)
-		forms := abe.All(sp.nLeaves, sp.kinds, sp.maxNot)
+		forms := sp.formulas()
 		desc = append(desc, fmt.Sprintf("%s: leaves=%d kinds=%v maxNot=%d formulas=%d assignments=%d", sp.name, sp.nLeaves, sp.kinds, sp.maxNot, len(forms), len(asgs)))
 		r.Count(fmt.Sprintf("formulas_%s_%dleaves", sp.name, sp.nLeaves), len(forms))
 		const chunk = 256
@@ -382,37 +464,7 @@ func TestVerifC20_refcheck(t *testing.T) {
 	}
 	r.Count("repository_vectors", len(vec))
 	// (b) the statement, by hand
-	hand := []struct {
-		pol   string
-		attrs map[string]string
-		want  bool
-	}{
-		{"a:1", map[string]string{"a": "1"}, true},
-		{"a:1", map[string]string{"a": "2"}, false},
-		{"a:1", map[string]string{}, false},
-		{"a:1", map[string]string{"b": "1"}, false},
-		{"not a:1", map[string]string{"a": "2"}, true},
-		{"not a:1", map[string]string{"a": "1"}, false},
-		{"not a:1", map[string]string{}, false},          // label must be present for a negated leaf
-		{"not a:1", map[string]string{"b": "1"}, false},   // idem
-		{"not not a:1", map[string]string{"a": "1"}, true},
-		{"not not a:1", map[string]string{}, false},
-		{"not (a:1 and b:1)", map[string]string{"a": "1", "b": "2"}, true},  // not a:1 or not b:1
-		{"not (a:1 and b:1)", map[string]string{"a": "1", "b": "1"}, false},
-		{"not (a:1 and b:1)", map[string]string{"a": "1"}, false},           // b missing: not b:1 fails, not a:1 fails
-		{"not (a:1 and b:1)", map[string]string{"a": "2"}, true},
-		{"not (a:1 or b:1)", map[string]string{"a": "2"}, false},            // not a:1 and not b:1, b missing
-		{"not (a:1 or b:1)", map[string]string{"a": "2", "b": "2"}, true},
-		{"not (a:1 or not b:1)", map[string]string{"a": "2", "b": "1"}, true}, // not a:1 and b:1
-		{"not (a:1 or not b:1)", map[string]string{"a": "2", "b": "2"}, false},
-		{"a:1 or b:1 and c:1", map[string]string{"a": "1"}, true},            // and binds tighter than or
-		{"(a:1 or b:1) and c:1", map[string]string{"a": "1"}, false},
-		{"not a:1 and b:1", map[string]string{"a": "1", "b": "1"}, false},    // not binds tightest
-		{"not (a:1 and b:1)", map[string]string{"a": "1", "b": "1"}, false},
-		{"a:1 and a:2", map[string]string{"a": "1"}, false},
-		{"a:1 or a:2", map[string]string{"a": "2"}, true},
-		{"not a:1 and not a:2", map[string]string{"a": "3"}, true},
-	}
+	hand := c20HandVectors
 	for _, h := range hand {
 		f, err := abe.Parse(h.pol)
 		if err != nil {
@@ -440,6 +492,10 @@ func TestVerifC20_refcheck(t *testing.T) {
 	}
 	for n := 1; n <= 3; n++ {
 		forms := abe.All(n, c20Kinds4, 2)
+		if n == 3 && !r.Thorough() {
+			forms = append(abe.All(3, c20Kinds3, 1), abe.All(3, c20Kinds2, 2)...)
+			forms = append(forms, abe.AllSigned(4, c20Kinds2)[:4000]...)
+		}
 		var bad string
 		var badMu sync.Mutex
 		setBad := func(x string) { badMu.Lock(); bad = x; badMu.Unlock() }
